@@ -80,30 +80,40 @@ def check(run, prog):
         uses_peek = any(isinstance(c, ast.Call) and text(c.func) == "self.peek" for c in walk_fn(fn.node))
         run.ob("R-12.1", f"{fn.key}::uses-translating-peek", uses_peek, f"{fname} never consults the translating peek()", fn.node)
     pk = prog.method("Lexer", "peek")
-    order = []
-    for n in walk_fn(pk.node):
-        if isinstance(n, ast.If):
-            t = text(n.test)
-            order.append((n.lineno, "tri" if "trigraphs" in t else "di" if "digraphs" in t else "plain" if "raw_peek" in t else "?"))
-    order = [k for _, k in sorted(order) if k in ("tri", "di", "plain")]
-    chain_ok = order[:3] == ["tri", "di", "plain"]
-    # they must be one if/elif/elif chain
-    top = [n for n in walk_fn(pk.node) if isinstance(n, ast.If) and "trigraphs" in text(n.test)]
-    if top:
-        n1 = top[0]
-        chain_ok = chain_ok and len(n1.orelse) == 1 and isinstance(n1.orelse[0], ast.If) and "digraphs" in text(n1.orelse[0].test) \
-            and len(n1.orelse[0].orelse) == 1 and isinstance(n1.orelse[0].orelse[0], ast.If)
-    run.ob("R-12.1", f"{pk.key}::translation-order", bool(top) and chain_ok,
-           f"peek() does not test trigraph, then digraph, then plain character (found {order})", pk.node)
+
+    def chains(fn):
+        """The trigraph -> digraph -> plain if/elif/elif chains of a function; (ok chains, malformed chains)."""
+        good, bad_ = [], []
+        for n in walk_fn(fn.node):
+            if isinstance(n, ast.If) and "trigraphs" in text(n.test) and not (
+                    isinstance(parent(n), ast.If) and n in parent(n).orelse and "trigraphs" in text(parent(n).test)):
+                okc = len(n.orelse) == 1 and isinstance(n.orelse[0], ast.If) and "digraphs" in text(n.orelse[0].test) \
+                    and "trigraphs" not in text(n.orelse[0].test) \
+                    and len(n.orelse[0].orelse) == 1 and isinstance(n.orelse[0].orelse[0], ast.If) \
+                    and "raw_peek" in text(n.orelse[0].orelse[0].test)
+                (good if okc else bad_).append(n)
+        # a digraph / plain test that is not below a trigraph test
+        for n in walk_fn(fn.node):
+            if isinstance(n, ast.If) and "digraphs" in text(n.test) and "trigraphs" not in text(n.test):
+                p_ = parent(n)
+                if not (isinstance(p_, ast.If) and n in p_.orelse and "trigraphs" in text(p_.test)):
+                    bad_.append(n)
+        return good, bad_
+    good, bad_ = chains(pk)
+    run.ob("R-12.1", f"{pk.key}::translation-order", bool(good) and not bad_,
+           f"peek() does not test trigraph, then digraph, then plain character in one if/elif/elif chain "
+           f"({len(good)} well-formed chain(s), {len(bad_)} malformed)", (bad_ or [pk.node])[0])
     pop = prog.method("Lexer", "pop")
-    reads = [text(c.func) for c in walk_fn(pop.node) if isinstance(c, ast.Call) and text(c.func) in ("self.peek", "self.raw_peek")]
-    first_read = None
-    for n in sorted([c for c in walk_fn(pop.node) if isinstance(c, ast.Call) and text(c.func) in ("self.peek", "self.raw_peek")],
-                    key=lambda c: (c.lineno, c.col_offset)):
-        first_read = text(n.func)
-        break
-    run.ob("R-12.1", f"{pop.key}::reads-through-peek", first_read == "self.peek",
-           "pop() does not read the next character through the translating peek()", pop.node, reads=reads)
+    pgood, pbad = chains(pop)
+    reads = sorted([c for c in walk_fn(pop.node) if isinstance(c, ast.Call) and text(c.func) in ("self.peek", "self.raw_peek")],
+                   key=lambda c: (c.lineno, c.col_offset))
+    # the first read of a character is the translating peek(), or the translation chain itself (peek's body inlined)
+    first = reads[0] if reads else None
+    ok_first = first is not None and (text(first.func) == "self.peek" or any(
+        any(x is first for x in ast.walk(c.test)) for c in pgood))
+    run.ob("R-12.1", f"{pop.key}::reads-through-peek", ok_first and not pbad,
+           "pop() does not read the next character through the translating peek()", pop.node,
+           reads=[text(c.func) for c in reads][:6])
 
     # ---- R-12.2 --------------------------------------------------------------------------------
     run.rule("R-12.2", "both splice spellings: every test for a line splice compares against both backslash-newline and "
@@ -235,3 +245,45 @@ def check(run, prog):
     run.ob("R-12.5", "file.py::File.source::readers", len(readers) >= 3 and not bad,
            "the raw source text is read outside the lexer: " + ", ".join(f"{f.key}:{n.lineno}" for f, n in bad[:3]),
            bad[0][1] if bad else None, readers=sorted({f.key for f, _ in readers}))
+    rule_position_caches(run, prog)
+
+
+def rule_position_caches(run, prog):
+    from ..cfg import cfg_of
+    from .c05 import _cfg_node_of_expr
+    run.rule("R-12.6", "cache coherence: the only mutable state of the Lexer is the cursor (__pos, __line, __line_pos); any "
+             "other attribute written outside __init__ caches something derived from the cursor, and must be reset on "
+             "every path between a write of __pos and the function's normal exits -- a splice that moves the cursor "
+             "directly would otherwise leave a stale character in front of the sub-parsers", floor=1)
+    lx = prog.cls("Lexer")
+    cursor = {"__pos", "__line", "__line_pos", "_Lexer__pos", "_Lexer__line", "_Lexer__line_pos"}
+    derived = {}
+    writes = []
+    for fn in lx.methods.values():
+        for n in walk_fn(fn.node):
+            tg = n.targets if isinstance(n, ast.Assign) else [n.target] if isinstance(n, (ast.AugAssign, ast.AnnAssign)) else []
+            for t in tg:
+                for x in ast.walk(t):
+                    if isinstance(x, ast.Attribute) and isinstance(x.value, ast.Name) and x.value.id == "self" \
+                            and isinstance(x.ctx, ast.Store):
+                        if x.attr in cursor:
+                            if x.attr.endswith("__pos"):
+                                writes.append((fn, n))
+                        elif fn.name != "__init__":
+                            derived.setdefault(x.attr, []).append((fn, n))
+    run.require(len(writes) >= 3, f"only {len(writes)} writes of the cursor position found in Lexer (floor 3)")
+    if not derived:
+        run.ob("R-12.6", f"{lx.key}::state", True, "", lx.node, cursor_writes=len(writes), derived_attributes=[])
+        return
+    for attr, sites in sorted(derived.items()):
+        for fn, w in writes:
+            if fn.name == "__init__":
+                continue
+            g = cfg_of(fn)
+            resets = {_cfg_node_of_expr(g, n) for f2, n in sites if f2 is fn}
+            resets.discard(None)
+            wid = _cfg_node_of_expr(g, w)
+            stale = wid is not None and wid not in resets and g.can_reach(wid, g.exit, avoid=resets, follow_exc=False)
+            run.ob("R-12.6", f"{fn.key}::coherent[{attr}@{text(w, 40)}]", not stale,
+                   f"self.{attr} (state derived from the cursor) is not reset on every path from `{text(w, 50)}` to the end of "
+                   f"{fn.name}: after this cursor move the next reader sees a stale value", w)
